@@ -549,6 +549,11 @@ func collectPatterns(t *Term, vars []*Term, out *[]*Term, seen map[string]bool) 
 				*out = append(*out, sub...)
 			}
 		}
+		if !childHas && !patternOK(t) {
+			// solvers reject patterns with ite / boolean connectives inside (and then ignore every pattern
+			// of the quantifier): look for usable sub-terms that mention some of the variables instead
+			return
+		}
 		if !childHas {
 			s := t.String()
 			if !seen[s] {
@@ -561,6 +566,37 @@ func collectPatterns(t *Term, vars []*Term, out *[]*Term, seen map[string]bool) 
 	for _, a := range t.Args {
 		collectPatterns(a, vars, out, seen)
 	}
+}
+
+// collectConjuncts records the text of every conjunct of t (t itself when it is not a conjunction).
+func collectConjuncts(t *Term, out map[string]bool) {
+	if t.Binder == "" && t.Op == "and" && len(t.Args) > 0 {
+		for _, a := range t.Args {
+			collectConjuncts(a, out)
+		}
+		return
+	}
+	if t.size <= 64 {
+		out[t.String()] = true
+	}
+}
+
+func patternOK(t *Term) bool {
+	switch t.Op {
+	case "ite", "and", "or", "not", "=>", "=", "distinct":
+		if len(t.Args) > 0 {
+			return false
+		}
+	}
+	if t.Binder != "" {
+		return false
+	}
+	for _, a := range t.Args {
+		if !patternOK(a) {
+			return false
+		}
+	}
+	return true
 }
 
 func isUFApp(t *Term) bool {
